@@ -120,7 +120,11 @@ Section Model.
   (* fix_constraint_cholesky; the factor U is represented by the system it factors, ZTZ[P_inorder][:, P_inorder] *)
   Definition fix_constraint (A : mat) (b : vec) (tau : T) (st : state) : res state :=
     let q := map (fun ps : bool * T => fst ps && leb F (snd ps) tau) (combine (sP st) (sS st)) in
-    match min_list (map (fun ds : T * T => div F (fst ds) (sub F (fst ds) (snd ds))) (sel q (combine (sD st) (sS st)))) with
+    (* step = d[q] - s_chol[q]; ratio = 0 where step == 0 (a parameter with d = s_chol cannot move; repaired in d0dd2eb: the quotient
+       used to be 0/0 = nan there), d[q] / step elsewhere; alpha = np.min(ratio) *)
+    match min_list (map (fun ds : T * T => let step := sub F (fst ds) (snd ds) in
+                                           if eqb F step zero then zero else div F (fst ds) step)
+                        (sel q (combine (sD st) (sS st)))) with
     | None => Raise OtherException                       (* np.min of an empty array: ValueError *)
     | Some alpha =>
         let d' := map (fun ds : T * T => add F (fst ds) (mul F alpha (sub F (snd ds) (fst ds)))) (combine (sD st) (sS st)) in
